@@ -58,24 +58,35 @@ class Summary:
 class Effects:
     def __init__(self, repo: Repo):
         self.repo = repo
-        self.sums: Dict[str, Summary] = {f.qn: Summary(f) for f in repo.all_funcs()}
+        # every function is analysed with its private helpers in place (sa.inline): flow-sensitive facts (what a container holds
+        # at this point, which class an operand has) then survive the extraction of helpers
+        from .inline import flatten
+        self.sums: Dict[str, Summary] = {f.qn: Summary(flatten(repo, f)) for f in repo.all_funcs()}
         self.rounds = 0
         self._table_cache: Dict[Tuple[str, str], List[FuncInfo]] = {}
         self.run()
 
     # ------------------------------------------------------------------
     def run(self):
-        for it in range(20):
+        # worklist by dependency: a function is re-analysed only when its own summary or the summary of a callee it applied changed
+        deps: Dict[str, Set[str]] = {}
+        changed_prev: Set[str] = set(self.sums)
+        for it in range(30):
             self.rounds = it + 1
-            changed = False
-            for s in self.sums.values():
+            changed_now: Set[str] = set()
+            for qn, s in self.sums.items():
+                if it > 0 and qn not in changed_prev and not (deps.get(qn, set()) & changed_prev):
+                    continue
                 a = _Analyzer(self, s)
                 a.run()
-                changed |= a.changed
-            if not changed:
+                deps[qn] = a.used
+                if a.changed:
+                    changed_now.add(qn)
+            if not changed_now:
                 break
+            changed_prev = changed_now
         else:
-            raise AnalysisError("effect analysis did not reach a fixpoint in 20 rounds")
+            raise AnalysisError("effect analysis did not reach a fixpoint in 30 rounds")
 
     def table_functions(self, modname: str, name: str) -> List[FuncInfo]:
         """functions stored as values of a module-level dict literal (call through TABLE[k](...))"""
@@ -133,10 +144,13 @@ class _Analyzer:
         self.f = s.f
         self.te = self.repo.types(self.f)
         self.g = C.cfg_of(self.f.node)
-        self.rd = C.ReachingDefs(self.g, self.f.params)
-        self.parents = parent_map(self.f.node)
+        from . import lib as _L
+        self.rd = _L.rd_of(self.f)
+        self.parents = _L.parents_of(self.f)
         self.changed = False
         self.memo: Dict[tuple, Set[Atom]] = {}
+        self.cuts = 0
+        self.used: Set[str] = set()
         self.sites: Dict[int, tuple] = {}
         self.compute_facts()
         self._after: Dict[int, Set[int]] = {}
@@ -183,7 +197,7 @@ class _Analyzer:
 
     @staticmethod
     def _terminates(body: List[ast.stmt]) -> bool:
-        return bool(body) and isinstance(body[-1], (ast.Return, ast.Raise, ast.Continue, ast.Break))
+        return bool(body) and (isinstance(body[-1], (ast.Return, ast.Raise, ast.Continue, ast.Break)) or getattr(body[-1], "_inline_jump", False))
 
     def compute_facts(self):
         self.facts: Dict[int, List[Tuple[str, str, bool]]] = {}
@@ -395,9 +409,17 @@ class _Analyzer:
         for d in defs:
             k2 = (nm, d)
             if k2 in seen:
+                self.cuts += 1          # a definition on the current resolution stack: the result below is context dependent
                 continue
+            dkey = ("def", nm, d)
+            if dkey in self.memo:
+                out |= self.memo[dkey]
+                continue
+            cuts0 = self.cuts
+            saved, out = out, set()
             s2 = seen | {k2}
             if d == self.g.entry:
+                out = saved
                 if self.f.is_method and nm == self.f.self_name:
                     out.add((("self",), ()))
                 else:
@@ -428,6 +450,10 @@ class _Analyzer:
                     for n in ast.walk(h):
                         if isinstance(n, ast.NamedExpr) and nm in C.target_names(n.target):
                             out |= self.val(n.value, d, s2)
+            if self.cuts == cuts0:
+                # nothing was cut while this definition was evaluated: its contribution does not depend on the use site
+                self.memo[dkey] = set(out)
+            out = saved | out
         if not seen:
             self.memo[key] = out
         return out
@@ -547,6 +573,7 @@ class _Analyzer:
 
     def apply_summary(self, callee: FuncInfo, bind: Dict[str, Set[Atom]], node: ast.AST, at: int, is_ctor: bool) -> Set[Atom]:
         cs = self.eff.sums[callee.qn]
+        self.used.add(callee.qn)
         importing: Set[tuple] = set()
         memo1: Dict[Atom, Set[Atom]] = {}
 
